@@ -12,8 +12,10 @@ from jsonpath.match import JSONPathMatch
 
 # names chosen to stress quoting, escaping, look-alikes of indices and reserved words
 NAMES = ["a", "b", "", "1", "-1", "a b", "é", "😀", "'", '"', "\\", "a\\", "\n", "and", "true", "~", "#", "$", "0x1", "☺", "~1", "/", "a/b", "m~n", "~01",
-         "a\x7fb", "\\\"", "\\'", "\"\\", "a\n", "-"]
-SAFE_NAMES = ["a", "b", "c1", "_x", "é"]  # valid as dot shorthand
+         "a\x7fb", "\\\"", "\\'", "\"\\", "a\n", "-",
+         # canonically equivalent but different strings (Unicode normalisation must not be applied to names)
+         "e\u0301", "\u212b", "\u00c5"]
+SAFE_NAMES = ["a", "b", "c1", "_x", "é", "e\u0301"]  # valid as dot shorthand
 
 DOCS = [
     {"a": 1, "b": [1, 2, 3], "c1": {"a": {"a": 2, "b": [4]}}},
